@@ -205,6 +205,9 @@ func (b *batch) absorb(res *childResult, hashFile string) {
 				b.extra["deadline_reached"] = true
 				continue
 			}
+			if k == "restart_after" {
+				continue
+			}
 			if f, ok := v.(float64); ok {
 				if old, ok := b.extra[k].(float64); ok {
 					b.extra[k] = old + f
@@ -271,6 +274,16 @@ func fanOutSeeds(b *batch, bin string, prop, tier string, seed uint64, total uin
 				res := runChild(childOpts{bin: bin, args: args, env: env, timeout: to, memKB: memKB})
 				b.absorb(res, hashFile)
 				if res.summary != nil {
+					if ra, ok := res.summary.Extra["restart_after"].(float64); ok {
+						// a budget panic unwound the library in that process: fresh process for the rest
+						from = uint64(ra) + uint64(workers)
+						restarts++
+						samplesPerWorker = 0
+						b.mu.Lock()
+						b.probes["process_restarted_after_budget_panic"]++
+						b.mu.Unlock()
+						continue
+					}
 					return
 				}
 				if res.timedOut {
@@ -301,7 +314,7 @@ func fanOutSeeds(b *batch, bin string, prop, tier string, seed uint64, total uin
 				from = uint64(res.lastB) + uint64(workers)
 				restarts++
 				samplesPerWorker = 0
-				if restarts > 50 {
+				if restarts > 2000 {
 					return
 				}
 			}
